@@ -476,6 +476,16 @@ def boot_sigma_contract(interp, data, conf=None, num_iterations=10000, winsorize
 
     _use("A-SIGMA: math_utils.boot_sigma(data, conf, winsorize, seed) is a finite positive function of the multiset of its rows' data and of (conf, winsorize, seed)")
     root, dom = _stat_rows(data)
+    # precondition of scipy.stats.bootstrap (it raises ValueError otherwise): at least two observations -- an obligation of the
+    # caller, for every group pandas calls the function for (count of the rows handed over)
+    from .frames import count_of
+
+    ctx = interp.ctx
+    cg = getattr(interp, "current_group", None)
+    guard = cg["present"] if cg and cg["root"] is root else z3.BoolVal(True)
+    n_ob = ctx.__dict__.setdefault("_bs_calls", [0])
+    n_ob[0] += 1
+    ctx.oblige(f"boot_sigma.call{n_ob[0]}.pre.at_least_two_observations", z3.Implies(guard, count_of(root, dom) >= 2), kind="pre", why="scipy.stats.bootstrap needs two or more observations (ValueError otherwise)")
     extra = [real(to_term(conf)), to_term(bool(winsorize)) if isinstance(winsorize, bool) else to_term(winsorize), to_term(seed), to_term(num_iterations)]
     sym, d = sums.formal_stat(interp.ctx, "bootsigma", root, dom, [real(data.t)], extra)
     interp.ctx.assume(sym > 0)
